@@ -373,66 +373,75 @@ RmdirErr(st, dir, id) ==       \* unlinkat(dir, name, AT_REMOVEDIR) of a directo
     IF ~MayWX(st, dir) THEN "EACCES" ELSE IF StickyDenies(st, dir, id) THEN "EPERM"
     ELSE IF DOMAIN st.ino[id].ent # {} THEN "ENOTEMPTY" ELSE "ok"
 RECURSIVE RemoveTree(_, _, _, _)
-\* removes entry name of directory dir as far as permissions allow; returns [err, st]
+\* removes entry name of directory dir as far as permissions allow; returns [err, st, errs]: the listing order of a
+\* directory is not specified, so when several children fail any of their errors can be the first: errs is the
+\* set of errors the call may report ({} = success), err one of them ("ok" when none)
 RemoveTree(st, dir, name, fuel) ==
     LET id == st.ino[dir].ent[name]
-        u == UnlinkErr(st, dir, id) IN
-    IF u = "ok" THEN [err |-> "ok", st |-> DelEntry(st, dir, name)]
-    ELSE IF ~IsDir(st, id) \/ fuel = 0 THEN [err |-> u, st |-> st]
+        u == UnlinkErr(st, dir, id)
+        Res1(e, s) == [err |-> e, st |-> s, errs |-> IF e = "ok" THEN {} ELSE {e}] IN
+    IF u = "ok" THEN Res1("ok", DelEntry(st, dir, name))
+    ELSE IF ~IsDir(st, id) \/ fuel = 0 THEN Res1(u, st)
     ELSE
         LET names == DOMAIN st.ino[id].ent
             RECURSIVE Each(_, _, _)
-            Each(s, todo, firstErr) ==
-                IF todo = {} THEN [err |-> firstErr, st |-> s]
+            Each(s, todo, acc) ==
+                IF todo = {} THEN [st |-> s, errs |-> acc]
                 ELSE LET n == CHOOSE x \in todo : TRUE
                          o == RemoveTree(s, id, n, fuel - 1) IN
-                     Each(o.st, todo \ {n}, IF firstErr = "ok" THEN o.err ELSE firstErr)
-            inner == IF ~May(st, id, 4) THEN [err |-> "EACCES", st |-> st]      \* the directory cannot be opened for reading
-                     ELSE Each(st, names, "ok")
+                     Each(o.st, todo \ {n}, acc \cup o.errs)
+            \* openat(dir, name, O_RDONLY): search permission on dir, read permission on the directory itself
+            inner == IF ~May(st, dir, 1) \/ ~May(st, id, 4) THEN [st |-> st, errs |-> {"EACCES"}]
+                     ELSE Each(st, names, {})
             last == RmdirErr(inner.st, dir, id) IN
-        IF last = "ok" THEN [err |-> "ok", st |-> DelEntry(inner.st, dir, name)]
-        ELSE IF inner.err # "ok" THEN inner
-        ELSE [err |-> last, st |-> inner.st]
+        IF last = "ok" THEN Res1("ok", DelEntry(inner.st, dir, name))
+        ELSE IF inner.errs # {} THEN [err |-> CHOOSE e \in inner.errs : TRUE, st |-> inner.st, errs |-> inner.errs]
+        ELSE Res1(last, inner.st)
 
 EndsWithDot(p) == p.parts # <<>> /\ Last(p.parts) = "."
 
-RemoveAll(st, c) ==
-    IF IsEmptyPath(c.p) THEN Ok(st)
-    ELSE IF EndsWithDot(c.p) THEN Fail("EINVAL", st)
+\* [res, st, errs]: errs = every error the call may report (see RemoveTree); {} when it succeeds
+RemoveAllX(st, c) ==
+    LET One(o) == [res |-> o.res, st |-> o.st, errs |-> IF o.res.err = "ok" THEN {} ELSE {o.res.err}] IN
+    IF IsEmptyPath(c.p) THEN One(Ok(st))
+    ELSE IF EndsWithDot(c.p) THEN One(Fail("EINVAL", st))
     ELSE
     LET r == Res(st, c.p, FALSE)
         lk == LastKind(c.p) IN
-    IF r.err = "ENOENT" THEN Ok(st)
+    IF r.err = "ENOENT" THEN One(Ok(st))
     ELSE IF r.err # "ok" THEN
         \* Remove(path) failed for another reason: package os opens the parent directory of the path for reading
         \* (whatever it is) before trying again through it; a missing parent means there is nothing to remove
         LET pp == [abs |-> c.p.abs, parts |-> IF c.p.parts = <<>> THEN <<>> ELSE Front(c.p.parts)]
             rp == Res(st, pp, TRUE) IN
-        IF c.p.parts = <<>> THEN Fail(r.err, st)
-        ELSE IF rp.err = "ENOENT" \/ (rp.err = "ok" /\ rp.id = 0) THEN Ok(st)
-        ELSE IF rp.err # "ok" THEN Fail(rp.err, st)
-        ELSE IF ~May(st, rp.id, 4) THEN Fail("EACCES", st)
-        ELSE Fail(r.err, st)
-    ELSE IF r.id = 0 THEN Ok(st)
+        IF c.p.parts = <<>> THEN One(Fail(r.err, st))
+        ELSE IF rp.err = "ENOENT" \/ (rp.err = "ok" /\ rp.id = 0) THEN One(Ok(st))
+        ELSE IF rp.err # "ok" THEN One(Fail(rp.err, st))
+        ELSE IF ~May(st, rp.id, 4) THEN One(Fail("EACCES", st))
+        ELSE One(Fail(r.err, st))
+    ELSE IF r.id = 0 THEN One(Ok(st))
     ELSE IF lk = "root" THEN
-        \* everything below the root goes as far as the caller may, then the root itself refuses; the first
-        \* error met below wins over the final EBUSY
+        \* everything below the root goes as far as the caller may, then the root itself refuses; an error met
+        \* below wins over the final EBUSY
         LET RECURSIVE Each(_, _, _)
-            Each(s, todo, fe) == IF todo = {} THEN [err |-> fe, st |-> s]
-                                 ELSE LET n == CHOOSE x \in todo : TRUE
-                                          o == RemoveTree(s, Root, n, 8) IN
-                                      Each(o.st, todo \ {n}, IF fe = "ok" THEN o.err ELSE fe)
-            inner == IF ~May(st, Root, 4) THEN [err |-> "EACCES", st |-> st] ELSE Each(st, DOMAIN st.ino[Root].ent, "ok") IN
-        Fail(IF inner.err = "ok" THEN "EBUSY" ELSE inner.err, Gc(inner.st))
-    ELSE IF lk = "dotdot" THEN Fail("ENOTEMPTY", st)
+            Each(s, todo, acc) == IF todo = {} THEN [st |-> s, errs |-> acc]
+                                  ELSE LET n == CHOOSE x \in todo : TRUE
+                                           o == RemoveTree(s, Root, n, 8) IN
+                                       Each(o.st, todo \ {n}, acc \cup o.errs)
+            inner == IF ~May(st, Root, 4) THEN [st |-> st, errs |-> {"EACCES"}] ELSE Each(st, DOMAIN st.ino[Root].ent, {})
+            es == IF inner.errs = {} THEN {"EBUSY"} ELSE inner.errs IN
+        [res |-> [R0 EXCEPT !.err = CHOOSE e \in es : TRUE], st |-> Gc(inner.st), errs |-> es]
+    ELSE IF lk = "dotdot" THEN One(Fail("ENOTEMPTY", st))
     ELSE LET par == Last(r.par)
              \* Remove(path) first: unlink, or rmdir for a directory
              first == IF IsDir(st, r.id) THEN RmdirErr(st, par, r.id) ELSE UnlinkErr(st, par, r.id) IN
-         IF first = "ok" THEN Ok(Gc(DelEntry(st, par, r.name)))
+         IF first = "ok" THEN One(Ok(Gc(DelEntry(st, par, r.name))))
          \* then the parent directory is opened for reading and the entry removed through it
-         ELSE IF ~May(st, par, 4) THEN Fail("EACCES", st)
+         ELSE IF ~May(st, par, 4) THEN One(Fail("EACCES", st))
          ELSE LET o == RemoveTree(st, par, r.name, 8) IN
-              IF o.err = "ok" THEN Ok(Gc(o.st)) ELSE Fail(o.err, Gc(o.st))
+              IF o.errs = {} THEN One(Ok(Gc(o.st)))
+              ELSE [res |-> [R0 EXCEPT !.err = o.err], st |-> Gc(o.st), errs |-> o.errs]
+RemoveAll(st, c) == LET x == RemoveAllX(st, c) IN [res |-> x.res, st |-> x.st]
 
 SamePath(p, q) == p = q
 
